@@ -411,6 +411,16 @@ func Gen(t *rapid.T, o Options) *Layout {
 			extra = append(extra, &field{name: "req_both", typ: "String", named: "String", owners: []int{extra[0].owners[0]}, requires: extra[0].requires + " " + extra[1].requires, provides: map[int]string{}})
 			m.feat["requires-two"] = true
 		}
+		// a chain: a computed field that requires another subgraph's computed field (three
+		// dependent fetches in a row)
+		if len(extra) > 0 && m.nsub >= 2 && rapid.IntRange(0, 2).Draw(t, "reqchain") == 0 {
+			base := extra[0]
+			o2 := owner("reqchainown")
+			if o2 != base.owners[0] {
+				extra = append(extra, &field{name: "chain_" + base.requires, typ: "String", named: "String", owners: []int{o2}, requires: base.name, provides: map[int]string{}})
+				m.feat["requires-chain"] = true
+			}
+		}
 		e.fields = append(e.fields, extra...)
 	}
 	// @provides on fields returning an entity (or list of it)
